@@ -2320,13 +2320,12 @@ def observation_differential_bounded(ctx):
 
     def gen(lang):
         """-> (file name, lines, expected [(line, value)] before the allowed filter, is_test_file)"""
-        lines, lits = [], []          # lits: (line, value, exempt)
+        lines, lits = [], []          # lits: (line, value, exempt) -- exempt True / False / "small" (iff 0 <= v <= max_small)
 
         def add(text, found=()):
             lines.append(text)
             for v, exempt in found:
                 lits.append((len(lines), v, exempt))
-        small = rng.choice([1, 3, 10])
         n = rng.randrange(3, 9)
         if lang == "python":
             add("import os")
@@ -2340,9 +2339,9 @@ def observation_differential_bounded(ctx):
                 elif k == 2:
                     add(f"MAX_VALUE_{i} = {spell(v, lang)}", [(v, True)])
                 elif k == 3:
-                    add(f"for i{i} in range({v}): pass", [(v, 0 <= v <= small)])
+                    add(f"for i{i} in range({v}): pass", [(v, "small")])
                 elif k == 4:
-                    add(f"for j{i}, e{i} in enumerate(items, {v}): pass", [(v, 0 <= v <= small)])
+                    add(f"for j{i}, e{i} in enumerate(items, {v}): pass", [(v, "small")])
                 elif k == 5:
                     add(f"sep{i} = '-' * {v}", [(v, True)])
                 elif k == 6:
@@ -2400,31 +2399,95 @@ def observation_differential_bounded(ctx):
             add(f"    fn t() -> u64 {{ {spell(v, lang)} }}", [(v, True)])
             add("}")
             name, is_test = "src/lib.rs", False
-        return name, lines, lits, is_test, small
+        return name, lines, lits, is_test
+
+    def expect(lits, is_test, allowed, small):
+        return sorted(((ln, v) for ln, v, exempt in lits
+                       if v not in allowed and not (0 <= v <= small if exempt == "small" else exempt) and not is_test), key=repr)
+
+    def reported(violations):
+        got = []
+        for r in violations:
+            mt = _re.fullmatch(r"Magic number (\S+) should be a named constant", r.message)
+            got.append((r.line, int(mt.group(1)) if mt and _re.fullmatch(r"-?\d+", mt.group(1)) else r.message))
+        return sorted(got, key=repr)
 
     import re as _re
     bad = {"python": [], "typescript": [], "rust": []}
     cases = {"python": 0, "typescript": 0, "rust": 0}
     for _ in range(rounds):
         for lang, check in (("python", rule._check_python), ("typescript", rule._check_typescript), ("rust", rule._check_rust)):
-            name, lines, lits, is_test, small = gen(lang)
+            name, lines, lits, is_test = gen(lang)
+            small = rng.choice([1, 3, 10])
             allowed = set(rng.sample(POOL, rng.randrange(0, 8)))
             config = cfg_cls(allowed_numbers=set(allowed), max_small_integer=small)
             context = _t.SimpleNamespace(file_path=pathlib.Path(name), file_content="\n".join(lines) + "\n", language=lang)
-            expected = sorted((ln, v) for ln, v, exempt in lits if v not in allowed and not exempt and not is_test)
+            expected = expect(lits, is_test, allowed, small)
             try:
-                got = []
-                for r in check(context, config):
-                    mt = _re.fullmatch(r"Magic number (\S+) should be a named constant", r.message)
-                    got.append((r.line, int(mt.group(1)) if mt and _re.fullmatch(r"-?\d+", mt.group(1)) else r.message))
-                got = sorted(got, key=repr)
+                got = reported(check(context, config))
             except BaseException as e:  # noqa
                 got = repr(e)[:200]
             cases[lang] += 1
-            if got != sorted(expected, key=repr) and len(bad[lang]) < 2:
+            if got != expected and len(bad[lang]) < 2:
                 bad[lang].append({"file": name, "source": lines, "allowed_numbers": sorted(allowed), "max_small_integer": small,
                                   "expected_(line,value)": expected, "reported_(line,value)": got})
-    return [{"name": f"bounded:MagicNumberRule._check_{k}/exactly-the-non-allowed-non-exempt-literals", "kind": "bounded",
+    # ---- whole runs: ONE orchestrator (one long-lived rule object, one shared configuration section) lints a set of
+    # files of different languages under per-language sections, in one order and then -- same object -- in the reverse
+    # order, and a fresh orchestrator starts with the reverse order: every file is judged by ITS language's settings,
+    # whenever and in whatever order it is linted (property: "all configurations"; no state survives between files)
+    import shutil
+    import tempfile
+    orch_mod = importlib.import_module("src.orchestrator.core")
+    RID = "magic-numbers.numeric-literal"
+    bad_run, runs = [], 0
+    for _ in range(max(6, rounds // 10)):
+        tmp = pathlib.Path(tempfile.mkdtemp(prefix="c02obs_"))
+        try:
+            (tmp / "src").mkdir()
+            section = {"allowed_numbers": sorted(rng.sample(POOL, rng.randrange(0, 6))), "max_small_integer": rng.choice([1, 3, 10])}
+            for lang in ("python", "typescript", "rust"):
+                if rng.random() < 0.8:
+                    sub = {}
+                    if rng.random() < 0.85:
+                        sub["allowed_numbers"] = sorted(rng.sample(POOL, rng.randrange(0, 6)))
+                    if rng.random() < 0.5:
+                        sub["max_small_integer"] = rng.choice([1, 3, 10])
+                    section[lang] = sub
+            files = []
+            for lang, ext in (("python", "py"), ("typescript", "ts"), ("rust", "rs"), ("python", "py")):
+                _, lines, lits, _ = gen(lang)
+                path = tmp / "src" / f"mod{len(files)}.{ext}"
+                path.write_text("\n".join(lines) + "\n")
+                files.append((path, lang, lines, expect(lits, False, set(chosen_allowed(section, lang)), chosen_max_small(section, lang))))
+            rng.shuffle(files)
+
+            def run(orch, order, label):
+                got_all = [v for v in orch.lint_files([f[0] for f in order]) if v.rule_id == RID]
+                for path, lang, lines, want in order:
+                    got = reported([v for v in got_all if pathlib.Path(v.file_path).name == path.name])
+                    if got != want and len(bad_run) < 2:
+                        bad_run.append({"scenario": label, "order": [f[0].name for f in order], "file": path.name, "language": lang,
+                                        "magic-numbers section": section, "source": lines, "expected_(line,value)": want,
+                                        "reported_(line,value)": got})
+            orch = orch_mod.Orchestrator(project_root=tmp, config={"magic-numbers": section})
+            run(orch, files, "first run")
+            run(orch, list(reversed(files)), "same orchestrator, second run, reverse order")
+            run(orch_mod.Orchestrator(project_root=tmp, config={"magic-numbers": section}), list(reversed(files)),
+                "fresh orchestrator, reverse order")
+            runs += 3
+        except BaseException as e:  # noqa
+            if len(bad_run) < 2:
+                bad_run.append({"scenario": "orchestrator run raised", "error": repr(e)[:300]})
+        finally:
+            shutil.rmtree(tmp, ignore_errors=True)
+    multi = [{"name": "bounded:Orchestrator.lint_files/each-file-judged-by-its-languages-settings-in-any-order", "kind": "bounded",
+              "verdict": "refuted" if bad_run else "passed", "tool": "generated multi-language runs (differential against the property text)",
+              "budget": f"{runs} runs of 4 files (py/ts/rs/py) under per-language sections, seed {ctx.get('seed', 0)}", "cases": runs,
+              "witness": bad_run, "witness_confirmed": bool(bad_run),
+              "note": (f"first deviation: {str(bad_run[0])[:700]}" if bad_run else
+                       "every file reported exactly as its language's settings demand, in both orders, on a reused and on a fresh "
+                       "orchestrator")}]
+    return multi + [{"name": f"bounded:MagicNumberRule._check_{k}/exactly-the-non-allowed-non-exempt-literals", "kind": "bounded",
              "verdict": "refuted" if v else "passed", "tool": "generated programs (differential against the property text)",
              "budget": f"{cases[k]} generated {k} files, seed {ctx.get('seed', 0)}", "cases": cases[k], "witness": v,
              "witness_confirmed": bool(v),
@@ -2464,6 +2527,18 @@ def _extend_props():
         c = _api.REGISTRY.get(t)
         if c is not None and "C02" not in c.props:
             c.props.append("C02")
+    # state hygiene C02 relies on ("whatever was linted before"): check() / _load_config of a registered rule write no field
+    # of the long-lived rule object (c08-check-frames, agent-c08), and the configuration path from the orchestrator's
+    # section to the rule keeps no state (c05-config-path-stateless)
+    for mod in ("contracts.c08_frames", "contracts.c05_keys"):
+        try:
+            importlib.import_module(mod)
+        except BaseException:  # noqa
+            pass
+    for name in ("c08-check-frames", "c05-config-path-stateless"):
+        entry = getattr(_api, "CUSTOM", {}).get(name)
+        if entry is not None and "C02" not in entry[0]:
+            entry[0].append("C02")
 
 
 _extend_props()
